@@ -814,6 +814,58 @@ def check_route_scenario(case, out):
     return v
 
 
+
+# ---------------------------------------------------------------- C19: paginated listing
+def gen_pages_scenario(rng):
+    """C19 at system level: register up to 45 pairs, then walk the listing with several page sizes."""
+    import itertools
+    nat = list(NATIVE_POOL)
+    decs = {d: 6 for d in nat}
+    natives = {'admin': {d: '10' for d in nat}}
+    case = dict(kind='scenario', natives=natives, tokens=[{'name': 'A', 'decimals': 6, 'balances': {'alice': '1000'}}, {'name': 'B', 'decimals': 18, 'balances': {'alice': '1000'}}],
+                native_decimals=decs, watch=[], pairs=[], steps=[])
+    assets = [{'native': d} for d in nat] + [{'token': 'A'}, {'token': 'B'}]
+    combos = list(itertools.combinations(assets, 2))
+    rng.shuffle(combos)
+    n = rng.choice([0, 1, 2, 5, 9, 10, 11, 12, 20, 29, 30, 31, 33, 41, 45])
+    steps = case['steps']
+    for (a, b) in combos[:n]:
+        if rng.random() < 0.5:
+            a, b = b, a
+        steps.append(dict(op='create_pair', sender='admin', assets=[a, b], whitelist=['alice'], min=['0', '0'], commission=None))
+    for lim in rng.sample([None, 1, 2, 3, 7, 10, 11, 29, 30, 31, 100], 4):
+        steps.append(dict(op='walk_pairs', limit=lim))
+    return case
+
+
+def check_pages_scenario(case, out):
+    v = []
+    if 'steps' not in out:
+        return v
+    created = 0
+    for k, (st, res) in enumerate(zip(case['steps'], out['steps'])):
+        if st['op'] == 'create_pair' and res['ok']:
+            created += 1
+        if st['op'] != 'walk_pairs':
+            continue
+        if not res['ok']:
+            v.append(('C19', 'walking the listing failed: %s' % res.get('err', '')[-160:], k))
+            continue
+        want = [p['addr'] for p in res['snap']['pairs']]
+        pages = res['res']['pages']
+        lim = st.get('limit')
+        cap = min(lim if lim is not None else 10, 30)
+        for pg in pages:
+            if len(pg) > cap:
+                v.append(('C19', 'page of %d entries with limit %s (cap %d)' % (len(pg), lim, cap), k))
+        seen = [a for pg in pages for a in pg]
+        if len(seen) != len(set(seen)):
+            v.append(('C19', 'walk with limit %s visited a pair twice (%d entries, %d distinct)' % (lim, len(seen), len(set(seen))), k))
+        if set(seen) != set(want):
+            v.append(('C19', 'walk with limit %s visited %d of %d registered pairs' % (lim, len(set(seen) & set(want)), len(want)), k))
+    return v
+
+
 def search_special(run_cases, pid, rng, budget):
     """Registry / decimals / authority / route scenarios and the unit-level key search."""
     if pid == 'C16':
@@ -827,6 +879,8 @@ def search_special(run_cases, pid, rng, budget):
     gens = []
     if pid in ('C16', 'C17', 'C14'):
         gens.append((gen_registry_scenario, check_registry_scenario, False))
+    if pid == 'C19':
+        gens.append((gen_pages_scenario, check_pages_scenario, False))
     if pid == 'C14':
         gens.append((gen_auth_scenario, check_auth_scenario, False))
     if pid in ('C11', 'C13', 'C12', 'C07'):
